@@ -80,7 +80,12 @@ func BuildMessageLate(r *rec.Rec, deep ...bool) (util.Message, int, error) {
 					return nil, 0, err
 				}
 				if j%2 == 0 {
-					x.AddAction(nested...)
+					scratch := make([]of.Action, len(nested), len(nested)+2)
+					copy(scratch, nested)
+					x.AddAction(scratch...)
+					for i := range scratch { // the caller's scratch slice is reused at once
+						scratch[i] = of.NewActionGroup(0xdead0000 + uint32(i))
+					}
 				} else {
 					for _, n := range nested {
 						x.AddAction(n)
